@@ -5,14 +5,14 @@ import os
 import re
 import shutil
 
+import common
 from common import BINDC, MachineryError, NCPU, REPO, pmap, read_ndjson, run, scratch, tlc, tlc_ok, write_ndjson
 
-WDEFS = ["-DHAS_FCNTL=1", "-DHAS_GETENTROPY=1", "-DHAS_LSTAT=1", "-DHAS_PTHREAD=1", "-DHAS_STRDUP=1", "-DHAS_STRNDUP=1",
-         "-DHAS_SYSRESOURCE=1", "-DHAS_SYSTIME=1", "-DHAS_SYSUIO=1", "-DHAS_TIMESPEC=1", "-DHAS_UNISTD=1", "-DWASM_THREADS_PTHREADS"]
+WDEFS = common.project_defs("wasi/wasi.c")
 R1, R2, IOV, PATH1, WBUF, RBUF, STAT, DIRBUF, PATH2, BIG = 0x100, 0x110, 0x200, 0x400, 0x1000, 0x2000, 0x3000, 0x4000, 0xC000, 0x10000
 
 
-def build_driver(wd, asan=True, name="wasidrv"):
+def build_driver(wd, asan=True, name="wasidrv", extra=()):
     exe = os.path.join(wd, name)
     cov, cwd = [], None
     if os.environ.get("VERIF_GCOV"):
@@ -21,7 +21,7 @@ def build_driver(wd, asan=True, name="wasidrv"):
         cov = ["--coverage"]
         exe = os.path.join(cwd, name)
     cmd = ["gcc", "-g", "-O1", "-w"] + cov + (["-fsanitize=address", "-fno-omit-frame-pointer"] if asan else []) + \
-          ["-I", os.path.join(REPO, "w2c2"), "-I", os.path.join(REPO, "wasi"), *WDEFS,
+          ["-I", os.path.join(REPO, "w2c2"), "-I", os.path.join(REPO, "wasi"), *WDEFS, *extra,
            os.path.join(BINDC, "wasi_driver.c"), os.path.join(REPO, "wasi", "wasi.c"), "-o", exe, "-lm", "-lpthread"]
     rc, out, err = run(cmd, timeout=300, **({"cwd": cwd} if cwd else {}))
     if rc != 0:
@@ -43,7 +43,8 @@ def model_call(c):
          "abs": c.get("abs", False), "oflags": c.get("oflags", 0), "rd": c.get("rd", False), "wr": c.get("wr", False), "app": c.get("app", False),
          "segs": c.get("segs", []), "lens": c.get("lens", []), "offset": w8(c.get("offset", 0)), "delta": w8(c.get("delta", 0)),
          "whence": c.get("whence", 0), "bytes": c.get("bytes", []), "target": c.get("target", ""), "buflen": c.get("buflen", 0),
-         "path2": c.get("path2", ""), "parent": c.get("parent", ""), "parent2": c.get("parent2", ""), "under": c.get("under", [])}
+         "path2": c.get("path2", ""), "parent": c.get("parent", ""), "parent2": c.get("parent2", ""), "under": c.get("under", []),
+         "slash": c.get("rawpath", "").endswith("/"), "slash2": c.get("rawpath2", "").endswith("/")}
     return m
 
 
@@ -58,7 +59,7 @@ def plen(c, sandbox):
 def script_line(c, sandbox):
     k, abi = c["call"], c.get("abi", "p")
     if k == "open":
-        p = (sandbox + "/" + c["path"]) if c.get("abs") else c["path"]
+        p = (sandbox + "/" + c.get("rawpath", c["path"])) if c.get("abs") else c.get("rawpath", c["path"])
         rights = (0x2 if c.get("rd") else 0) | (0x40 if c.get("wr") else 0)
         return "open %s %d %s %d %x %d" % (abi, c["dirfd"], hexs(p.encode()), c["oflags"], rights, 1 if c.get("app") else 0)
     if k == "write":
@@ -81,16 +82,16 @@ def script_line(c, sandbox):
     if k == "readdir":
         return "readdir %s %d %d %d" % (abi, c["fd"], c.get("buflen", 256), c.get("cookie", 0))
     if k in ("mkdir", "rmdir", "unlink", "pathstat"):
-        return "%s %s %d %s" % (k, abi, c["dirfd"], hexs(c["path"].encode()))
+        return "%s %s %d %s" % (k, abi, c["dirfd"], hexs(c.get("rawpath", c["path"]).encode()))
     if k == "readlink":
-        return "readlink %s %d %s %d" % (abi, c["dirfd"], hexs(c["path"].encode()), c.get("buflen", 64))
+        return "readlink %s %d %s %d" % (abi, c["dirfd"], hexs(c.get("rawpath", c["path"]).encode()), c.get("buflen", 64))
     if k == "symlink":
-        return "symlink %s %s %d %s" % (abi, hexs(c.get("target", "t").encode()), c["dirfd"], hexs(c["path"].encode()))
+        return "symlink %s %s %d %s" % (abi, hexs(c.get("target", "t").encode()), c["dirfd"], hexs(c.get("rawpath", c["path"]).encode()))
     if k == "rename":
-        p2 = c.get("path2", "z")
+        p2 = c.get("rawpath2", c.get("path2", "z"))
         if c.get("abs2"):
             p2 = sandbox + "/" + p2
-        return "rename %s %d %s %d %s" % (abi, c["dirfd"], hexs(c["path"].encode()), c["fd"], hexs(p2.encode()))
+        return "rename %s %d %s %d %s" % (abi, c["dirfd"], hexs(c.get("rawpath", c["path"]).encode()), c["fd"], hexs(p2.encode()))
     raise MachineryError("no script form for " + k)
 
 
@@ -103,6 +104,8 @@ def run_history(exe, calls, sandbox_root, hid, setup=(), argv=(), env=(), ls_aft
         p = os.path.join(sb, s["path"])
         if s["call"] == "mkdirs":
             os.makedirs(p, exist_ok=True)
+        elif s["call"] == "mkfifo":
+            os.mkfifo(p)
         elif s["call"] == "mklink":
             os.symlink(s["target"], p)
         else:
